@@ -58,7 +58,7 @@ CLAIMED = {
                      'C05_map_result (when every extra tree is matched and f returns leaf-typed objects, tree_map returns a tree that flattens to exactly the '
                      'results of the calls, in order, and the treespec of t; the call log is one tuple (leaf_i, subs_1[i], ...) per leaf in flatten order; '
                      'uses C01_replace_leaves), C05_map_pure (tree_map(g, t) = unflatten(treespec(t), map g leaves)), C05_map_identity, C05_map_compose '
-                     '(map(f . g) = map(f) . map(g) for leaf-valued g), C05_map_with_path_result (the with_path variant: same result, every call additionally receives the i-th path first), '
+                     '(map(f . g) = map(f) . map(g) for leaf-valued g), C05_map_with_path_result (the with_path variant: same result, every call additionally receives the i-th path first), C05_map_with_accessor_result / C05_map_with_accessor_reaches (the with_accessor variant: every call receives the i-th accessor of the treespec first, which - without a predicate - exists and leads from the tree to the i-th leaf), '
                      'C05_inplace_same_calls (the underscore variants log exactly the calls of the variants without underscore). '
                      'The with_accessor variants and walk / traverse: correspondence + reference alignment in the oracle.' + PARTIAL,
                 technique='Lean 4 proof about the ops.py model, using the flatten_up_to refinement + correspondence', ref='6 C05'),
